@@ -1,6 +1,7 @@
 package props
 
 import (
+	"fmt"
 	"go/constant"
 	"go/token"
 	"go/types"
@@ -44,28 +45,55 @@ func c18RewrapNamespace(c *eng.Ctx) {
 	n := 0
 	seen := map[*ssa.Call]bool{}
 	for _, pat := range []string{`^vault\.\(\*TokenStore\)\.UseTokenByID$`, `^vault\.\(\*TokenStore\)\.revokeOrphan$`, `^routing\.\(\*Router\)\.Route$`} {
-		for _, cl := range eng.Calls(f, pat) {
+		for _, cl := range c18Calls(f, pat) {
 			n++
-			ctxArg := cl.Common().Args[1]
-			if !c.Prov(f, "context of "+eng.CalleeName(cl.Common())+" = the wrapping token's namespace", cl, ctxArg, `^call:namespace\.ContextWithNamespace$`) {
-				continue
-			}
-			for _, o := range eng.Origins(ctxArg) {
-				if cw, isCall := o.Val.(*ssa.Call); isCall && !seen[cw] {
-					seen[cw] = true
-					c.Prov(f, "namespace the rewrap context is switched to", cw, cw.Call.Args[1], `^call:vault\.\(\*Core\)\.NamespaceByID#0$`)
-				}
+			for _, e := range cl.Effs {
+				c18SwitchedCtx(c, f, "context of "+e.Call.Name+" = the wrapping token's namespace", "namespace the rewrap context is switched to", cl.At, e.Call.Args[1], e.Fr, seen)
 			}
 		}
 	}
 	c.Floor(f, "namespace-sensitive steps of the rewrap (UseTokenByID, revokeOrphan, two cubbyhole reads)", n, 4)
-	for _, nb := range eng.Calls(f, `^vault\.\(\*Core\)\.NamespaceByID$`) {
-		a := nb.Common().Args
-		s := eng.Expr(a[len(a)-1])
-		if strings.HasSuffix(s, ".NamespaceID") && strings.Contains(s, "lookupTainted()#0") {
-			c.OK(f, "namespace looked up = the wrapping token's", nb.Pos(), s)
-		} else {
-			c.Violation(f, "namespace looked up = the wrapping token's", nb.Pos(), "NamespaceByID("+s+")", nil)
+	c18NamespaceLookedUp(c, f)
+}
+
+// c18SwitchedCtx: the context handed to a namespace-sensitive step is the
+// result of namespace.ContextWithNamespace on every path, and the namespace
+// given to that call is NamespaceByID's result.
+func c18SwitchedCtx(c *eng.Ctx, f *ssa.Function, site, nsSite string, at ssa.Instruction, ctxArg ssa.Value, fr *nfFrame, seen map[*ssa.Call]bool) bool {
+	if !c18Prov(c, f, site, at, ctxArg, fr, `^call:namespace\.ContextWithNamespace$`) {
+		return false
+	}
+	for _, o := range c18Origins(ctxArg, fr) {
+		cw, isCall := o.Val.(*ssa.Call)
+		if !isCall || (seen != nil && seen[cw]) {
+			continue
+		}
+		if seen != nil {
+			seen[cw] = true
+		}
+		a := nfCallOf(cw).Args
+		c18Prov(c, f, nsSite, cw, a[len(a)-1], o.Fr, `^call:vault\.\(\*Core\)\.NamespaceByID#0$`)
+	}
+	return true
+}
+
+// c18NamespaceLookedUp: every NamespaceByID of f is given the NamespaceID field
+// of the entry lookupTainted returned.
+func c18NamespaceLookedUp(c *eng.Ctx, f *ssa.Function) {
+	for _, nb := range c18Calls(f, `^vault\.\(\*Core\)\.NamespaceByID$`) {
+		for _, e := range nb.Effs {
+			a := e.Call.Args
+			v, fr := c18Val(a[len(a)-1], e.Fr)
+			s := eng.Expr(v)
+			good := strings.HasSuffix(s, ".NamespaceID") && strings.Contains(s, "lookupTainted()#0")
+			if base, isField := c18FieldLoad(v, "NamespaceID"); isField && !good {
+				good, _, _ = c18OriginsMatch(base, fr, `^call:vault\.\(\*TokenStore\)\.lookupTainted#0$`)
+			}
+			if good {
+				c.OK(f, "namespace looked up = the wrapping token's", nb.At.Pos(), s)
+			} else {
+				c.Violation(f, "namespace looked up = the wrapping token's", nb.At.Pos(), "NamespaceByID("+s+")", nil)
+			}
 		}
 	}
 }
@@ -80,13 +108,15 @@ func c18RevokeByEntryID(c *eng.Ctx) {
 			continue
 		}
 		c.Clause("R5", "C18.14")
-		revs := c18CallsOf(f, c.P.Func("vault.(*TokenStore).revokeOrphan"))
+		revs := c18Calls(f, `^vault\.\(\*TokenStore\)\.revokeOrphan$`)
 		if !c.Floor(f, "revokeOrphan of the consumed wrapping token", len(revs), 1) {
 			continue
 		}
 		for _, r := range revs {
-			c.Prov(f, "token revoked after the payload was read = the looked-up entry's ID", r.At, r.Args[2],
-				`^field:te\.ID$`, `^field:vault\.\(\*TokenStore\)\.lookupTainted\(\)#0\.ID$`)
+			for _, e := range r.Effs {
+				c18Prov(c, f, "token revoked after the payload was read = the looked-up entry's ID", r.At, e.Call.Args[2], e.Fr,
+					`^field:te\.ID$`, `^field:vault\.\(\*TokenStore\)\.lookupTainted\(\)#0\.ID$`)
+			}
 		}
 	}
 }
@@ -98,42 +128,33 @@ func c18LookupNamespace(c *eng.Ctx) {
 		return
 	}
 	c.Clause("R5", "C18.12")
-	routes := eng.Calls(f, `^routing\.\(\*Router\)\.Route$`)
+	routes := c18Calls(f, `^routing\.\(\*Router\)\.Route$`)
 	if !c.Floor(f, "cubbyhole read", len(routes), 1) {
 		return
 	}
 	for _, r := range routes {
-		ctxArg := r.Common().Args[1]
-		if !c.Prov(f, "wrap info is read in the wrapping token's namespace", r, ctxArg, `^call:namespace\.ContextWithNamespace$`) {
-			continue
-		}
-		for _, o := range eng.Origins(ctxArg) {
-			if cw, isCall := o.Val.(*ssa.Call); isCall {
-				c.Prov(f, "namespace the lookup context is switched to", cw, cw.Call.Args[1], `^call:vault\.\(\*Core\)\.NamespaceByID#0$`)
-			}
+		for _, e := range r.Effs {
+			c18SwitchedCtx(c, f, "wrap info is read in the wrapping token's namespace", "namespace the lookup context is switched to", r.At, e.Call.Args[1], e.Fr, nil)
 		}
 	}
-	for _, nb := range eng.Calls(f, `^vault\.\(\*Core\)\.NamespaceByID$`) {
-		a := nb.Common().Args
-		s := eng.Expr(a[len(a)-1])
-		if strings.HasSuffix(s, ".NamespaceID") && strings.Contains(s, "lookupTainted()#0") {
-			c.OK(f, "namespace looked up = the wrapping token's", nb.Pos(), s)
-		} else {
-			c.Violation(f, "namespace looked up = the wrapping token's", nb.Pos(), "NamespaceByID("+s+")", nil)
-		}
-	}
+	c18NamespaceLookedUp(c, f)
 }
 
 // ---------- C18.6 a token whose use was consumed is invisible to the re-read the decrement is made on
 func c18UsedUpInvisible(c *eng.Ctx) {
 	if f := c.Fn("vault.(*TokenStore).UseToken"); f != nil {
 		c.Clause("R12", "C18.6")
-		rr := eng.Calls(f, `vault\.\(\*TokenStore\)\.lookupInternal$`)
+		var rr []nfEff
+		for _, s := range c18Calls(f, `vault\.\(\*TokenStore\)\.lookupInternal$`) {
+			rr = append(rr, s.Effs...)
+		}
 		if c.Floor(f, "locked re-read (lookupInternal)", len(rr), 1) {
-			for _, l := range rr {
-				a := l.Common().Args
+			for _, le := range rr {
+				l := le.Call.In
+				a := le.Call.Args
+				tainted, _ := c18Val(a[len(a)-1], le.Fr)
 				site := "const{lookupInternal(tainted=false)} for the locked re-read"
-				if s := eng.Expr(a[len(a)-1]); s == "false" {
+				if s := eng.Expr(tainted); s == "false" {
 					c.OK(f, site, l.Pos(), "the re-read does not return an entry already marked used-up: the second of two racing unwraps finds nothing")
 				} else {
 					c.Violation(f, site, l.Pos(), "the re-read under the token lock is made with tainted="+s+": it also returns an entry whose last use was just consumed, which is then decremented again and handed back as usable", nil)
@@ -159,7 +180,7 @@ func c18UsedUpInvisible(c *eng.Ctx) {
 			}
 		}
 		if c.Floor(f, "returns handing out the stored entry", len(withEntry), 2) {
-			c.Cut(f, "stored entry returned", withEntry, eng.Or(eng.G(f, `\.NumUses < 0$`, false), eng.G(f, `^tainted$`, true)), nil)
+			c.Cut(f, "stored entry returned", withEntry, eng.Or(c18G(f, `\.NumUses < 0$`, false), c18G(f, `^tainted$`, true)), nil)
 		}
 	}
 }
@@ -211,7 +232,7 @@ func c18Conjuncts(ifb *ssa.BasicBlock) ([]c18Conjunct, bool) {
 func c18WrapDecision(c *eng.Ctx) {
 	if f := c.Fn("vault.(*Core).handleCancelableRequest"); f != nil {
 		c.Clause("R2", "C18.7")
-		wc := instrsOf(eng.Calls(f, `vault\.\(\*Core\)\.wrapInCubbyhole$`))
+		wc := c18Ats(c18Plain(c18Calls(f, `vault\.\(\*Core\)\.wrapInCubbyhole$`)))
 		site := "the decision to wrap tests nothing but the tabled facts"
 		if c.Floor(f, "wrapInCubbyhole call", len(wc), 1) {
 			// the If that decides: wrapInCubbyhole is reachable from its true edge only
@@ -253,7 +274,7 @@ func c18WrapDecision(c *eng.Ctx) {
 				for _, x := range cj {
 					hit := false
 					for _, t := range table {
-						if x.nc.Matches(regexp.MustCompile(t.pat)) && x.want == t.want {
+						if re := regexp.MustCompile(t.pat); (re.MatchString(c18Unbound(x.nc.Base)) || (x.nc.Alt != "" && re.MatchString(c18Unbound(x.nc.Alt)))) && x.want == t.want {
 							hit = true
 							seen[t.what] = true
 						}
@@ -299,8 +320,8 @@ func c18CreationPath(c *eng.Ctx) {
 		return
 	}
 	c.Clause("R2", "C18.8")
-	notRewrap := eng.G(f, `^req\.Path == "sys/wrapping/rewrap"$`, false)
-	isRewrap := eng.G(f, `^req\.Path == "sys/wrapping/rewrap"$`, true)
+	notRewrap := c18G(f, `^req\.Path == "sys/wrapping/rewrap"$`, false)
+	isRewrap := c18G(f, `^req\.Path == "sys/wrapping/rewrap"$`, true)
 	fromReq := func(v ssa.Value) bool {
 		ok, _, _ := eng.OriginsMatch(v, `^field:req\.Path$`)
 		return ok
@@ -341,13 +362,19 @@ func c18FailedWrapCleansUp(c *eng.Ctx) {
 		return
 	}
 	c.Clause("R4", "C18.9")
-	ct := eng.Calls(f, `vault\.\(\*Core\)\.CreateToken$`)
-	rev := eng.Calls(f, `vault\.\(\*TokenStore\)\.revokeOrphan$`)
+	ct := c18Plain(c18Calls(f, `vault\.\(\*Core\)\.CreateToken$`))
+	rev := c18Plain(c18Calls(f, `vault\.\(\*TokenStore\)\.revokeOrphan$`))
 	if !c.Floor(f, "CreateToken call", len(ct), 1) || !c.Floor(f, "revokeOrphan calls on the failure legs", len(rev), 3) {
 		return
 	}
 	for _, r := range rev {
-		c.Prov(f, "token revoked on a failed wrap", r, r.Common().Args[2], `^field:&te\.ID$`)
+		for _, e := range r.Effs {
+			c18Prov(c, f, "token revoked on a failed wrap", r.At, e.Call.Args[2], e.Fr, `^field:&te\.ID$`)
+		}
+	}
+	var created []eng.Edge
+	if ct[0].Fwd {
+		created = eng.CallOKEdges(ct[0].At.(ssa.CallInstruction))
 	}
 	failing := func(in ssa.Instruction) bool {
 		r, ok := in.(*ssa.Return)
@@ -362,12 +389,12 @@ func c18FailedWrapCleansUp(c *eng.Ctx) {
 		return false
 	}
 	site := "after{CreateToken} every failing return revokes the wrapping token"
-	if h := eng.Reach(eng.Query{Fn: f, StartEdges: eng.CallOKEdges(ct[0]), Barriers: instrsOf(rev), Target: failing}); h != nil {
+	if len(created) == 0 {
+		c.Undecided(f, site, ct[0].At.Pos(), "no success edge found for CreateToken")
+	} else if h := eng.Reach(eng.Query{Fn: f, StartEdges: created, Barriers: c18Ats(rev), Target: failing}); h != nil {
 		c.Violation(f, site, h.Instr.Pos(), "wrapInCubbyhole can fail after the wrapping token was created without revoking it: a token (and whatever was already written to its cubbyhole) is left with no lease to expire it", h.Witness)
-	} else if len(eng.CallOKEdges(ct[0])) == 0 {
-		c.Undecided(f, site, ct[0].Pos(), "no success edge found for CreateToken")
 	} else {
-		c.OK(f, site, ct[0].Pos(), "every return of an error / error response after CreateToken passes revokeOrphan(te.ID)")
+		c.OK(f, site, ct[0].At.Pos(), "every return of an error / error response after CreateToken passes revokeOrphan(te.ID)")
 	}
 }
 
@@ -498,7 +525,7 @@ func c18Policy(c *eng.Ctx) {
 	// ... and the table is what SetPolicy refuses on
 	if f := c.Fn("policy.(*Store).SetPolicy"); f != nil {
 		c.Clause("R2", "C18.11")
-		sinks := instrsOf(eng.Calls(f, `policy\.\(\*Store\)\.setPolicyInternal$`))
+		sinks := c18Ats(c18Plain(c18Calls(f, `policy\.\(\*Store\)\.setPolicyInternal$`)))
 		if c.Floor(f, "setPolicyInternal call", len(sinks), 1) {
 			c.Cut(f, "policy written", sinks, eng.GD(f, `^slices\.Contains(\[.*\])?\(policy\.immutablePolicies, `, false), nil)
 		}
@@ -506,116 +533,195 @@ func c18Policy(c *eng.Ctx) {
 }
 
 // ---------------------------------------------------------------------------
-// Sites selected by what they are rather than by how they are written.
+// Sites selected by what they are rather than by how they are written. Built
+// on the resolution helpers of c04follow.go (nfMust / nfOrigins): every C18
+// rule that locates a call goes through c18Calls, every provenance test of an
+// argument through c18Prov / c18OriginsMatch, every guard through c18G /
+// c18GCallOK.
 
-// c18Site is a call of a target function that belongs to f: written in f
-// directly, called in f through a method value bound in f (route := r.Route;
-// route(...)), or written in a closure that f defers, where it is executed on
-// every path of that closure (defer func() { _ = ts.revokeOrphan(...) }()).
+// c18Site is an instruction of f that stands for a call whose resolved callee
+// matches a pattern: the call itself (written directly or through a bound
+// method value), a call of a closure of f / of an unexported helper of the
+// package that performs it on every path, or — Kind "defer" — the defer of the
+// call, of such a closure or of such a helper. Effs are the calls of the target
+// behind the site, each with the call chain that leads to it (so that an
+// argument that is a parameter or a captured variable there can be followed
+// back into f).
 type c18Site struct {
-	Call ssa.CallInstruction // the call of the target itself
-	At   ssa.Instruction     // the instruction of f that stands for it: the call, or the defer of the closure
-	// Deferred: the target runs when f returns (defer target(...), or inside a
-	// deferred closure).
-	Deferred bool
-	// Args are the call's arguments, receiver first. A free variable read inside
-	// a deferred closure is replaced by the cell of f it is bound to (whose
-	// origins are the values f stores into it).
-	Args []ssa.Value
+	At   ssa.Instruction
+	Kind string // "call", "defer", "go"
+	Effs []nfEff
+	// Fwd: the error result of At is the verdict of the target.
+	Fwd bool
 }
 
-func c18ResolvesTo(call ssa.CallInstruction, target *ssa.Function) (ok bool, bound *ssa.MakeClosure) {
-	g := call.Common().StaticCallee()
-	if g == nil || target == nil {
-		return false, nil
-	}
-	if g == target || g.Origin() == target {
-		return true, nil
-	}
-	if g.Synthetic != "" && g.Object() != nil && g.Object() == target.Object() {
-		mc, _ := call.Common().Value.(*ssa.MakeClosure)
-		return true, mc
-	}
-	return false, nil
-}
+// Self: At is the call of the target itself (direct or through a method value).
+func (s c18Site) Self() bool { return len(s.Effs) == 1 && s.Effs[0].Call.In == s.At }
 
-func c18CallsOf(f, target *ssa.Function) []c18Site {
-	var out []c18Site
-	if f == nil || target == nil {
+func c18Calls(f *ssa.Function, pat string) []c18Site {
+	if f == nil {
 		return nil
 	}
-	argsOf := func(call ssa.CallInstruction, bound *ssa.MakeClosure) []ssa.Value {
-		a := call.Common().Args
-		if bound != nil {
-			// the receiver of a bound method value is the closure's only binding
-			return append(append([]ssa.Value{}, bound.Bindings...), a...)
-		}
-		return append([]ssa.Value{}, a...)
+	is := nfNamed(pat)
+	byAt := map[ssa.Instruction]nfSite{}
+	for _, s := range nfMust(f, nil, is, 2) {
+		byAt[s.At] = s
 	}
-	for _, b := range f.Blocks {
-		for _, in := range b.Instrs {
-			ci, ok := in.(ssa.CallInstruction)
-			if !ok {
-				continue
-			}
-			if ok, bound := c18ResolvesTo(ci, target); ok {
-				_, isDefer := ci.(*ssa.Defer)
-				out = append(out, c18Site{Call: ci, At: ci, Deferred: isDefer, Args: argsOf(ci, bound)})
-				continue
-			}
-			// a closure of f that f defers
-			d, isDefer := ci.(*ssa.Defer)
-			if !isDefer {
-				continue
-			}
-			mc, ok := d.Call.Value.(*ssa.MakeClosure)
-			if !ok {
-				continue
-			}
-			cl, ok := mc.Fn.(*ssa.Function)
-			if !ok || cl.Parent() != f {
-				continue
-			}
-			for _, cb := range cl.Blocks {
-				for _, cin := range cb.Instrs {
-					cc, ok := cin.(*ssa.Call)
-					if !ok {
-						continue
-					}
-					ok, bound := c18ResolvesTo(cc, target)
-					if !ok {
-						continue
-					}
-					// executed whenever the closure runs
-					if h := eng.Reach(eng.Query{Fn: cl, Barriers: []ssa.Instruction{cc}, Target: func(x ssa.Instruction) bool { _, r := x.(*ssa.Return); return r }}); h != nil {
-						continue
-					}
-					args := argsOf(cc, bound)
-					for i, a := range args {
-						if u, ok := a.(*ssa.UnOp); ok && u.Op == token.MUL {
-							if fv, ok := u.X.(*ssa.FreeVar); ok {
-								for k, v := range cl.FreeVars {
-									if v == fv && k < len(mc.Bindings) {
-										args[i] = mc.Bindings[k]
-									}
-								}
-							}
-						}
-					}
-					out = append(out, c18Site{Call: cc, At: d, Deferred: true, Args: args})
-				}
-			}
+	kindOf := func(in ssa.Instruction) string {
+		switch in.(type) {
+		case *ssa.Defer:
+			return "defer"
+		case *ssa.Go:
+			return "go"
 		}
+		return "call"
+	}
+	var out []c18Site
+	for _, ci := range nfAllCalls(f) {
+		if s, ok := byAt[ci]; ok {
+			out = append(out, c18Site{At: ci, Kind: kindOf(ci), Effs: s.Effs, Fwd: s.Fwd})
+			continue
+		}
+		// a deferred closure / helper that performs the call on every path
+		d, isDefer := ci.(*ssa.Defer)
+		if !isDefer {
+			continue
+		}
+		g := nfBody(d, f)
+		if g == nil {
+			continue
+		}
+		inner := nfMust(g, &nfFrame{call: d}, is, 1)
+		if len(inner) == 0 || eng.Reach(eng.Query{Fn: g, Barriers: nfAts(inner), Target: nfIsNormalReturn}) != nil {
+			continue
+		}
+		out = append(out, c18Site{At: d, Kind: "defer", Effs: nfEffs(inner)})
 	}
 	return out
 }
 
-func c18SiteInstrs(ss []c18Site) []ssa.Instruction {
+func c18Ats(ss []c18Site) []ssa.Instruction {
 	var out []ssa.Instruction
 	for _, s := range ss {
 		out = append(out, s.At)
 	}
 	return out
+}
+
+// c18Plain keeps the sites that have happened when the instruction completes.
+func c18Plain(ss []c18Site) []c18Site {
+	var out []c18Site
+	for _, s := range ss {
+		if s.Kind == "call" {
+			out = append(out, s)
+		}
+	}
+	return out
+}
+
+// c18GCallOK is eng.GCallOK over resolved sites (same description, same key).
+func c18GCallOK(f *ssa.Function, pat string) eng.Guard { return nfGCallOK(f, pat) }
+
+// c18Val follows a value that is a parameter of a closure / helper to the
+// argument passed for it, and a read of a captured or local variable that is
+// assigned once to the value assigned — e.g. to the literal a request is built
+// in, so that its fields can be looked at.
+func c18Val(v ssa.Value, fr *nfFrame) (ssa.Value, *nfFrame) {
+	for depth := 0; depth < 6 && v != nil; depth++ {
+		nv, nfr := c18Step(v, fr)
+		if nv == nil {
+			break
+		}
+		v, fr = nv, nfr
+	}
+	return v, fr
+}
+
+var c18BoundRe = regexp.MustCompile(`closure:((?:[\w./\-]+|\(\*?[\w./\-\[\], ]+\))+)\$bound`)
+
+// c18Unbound renders a call through a bound method value as the call of the
+// method (closure:pkg.(*T).M$bound -> pkg.(*T).M).
+func c18Unbound(s string) string {
+	if !strings.Contains(s, "$bound") {
+		return s
+	}
+	return c18BoundRe.ReplaceAllString(s, "$1")
+}
+
+// c18Origins: the origins of v (nfOrigins: across captured variables and the
+// parameters of the call chain), with call origins named by their resolved
+// callee.
+func c18Origins(v ssa.Value, fr *nfFrame) []nfOriginF {
+	os := nfOriginsF(v, fr)
+	for i := range os {
+		os[i].Desc = c18Unbound(os[i].Desc)
+		// a field of a struct variable read inside a closure that captured the
+		// variable (^te.ID) is the field of that variable (&te.ID)
+		if os[i].Kind == "field" && strings.HasPrefix(os[i].Desc, "^") {
+			if ld, ok := os[i].Val.(*ssa.UnOp); ok {
+				base := ld.X
+				for {
+					fa, isFA := base.(*ssa.FieldAddr)
+					if !isFA {
+						break
+					}
+					base = fa.X
+				}
+				if fv, ok := base.(*ssa.FreeVar); ok && nfCellOf(fv) != nil {
+					os[i].Desc = "&" + os[i].Desc[1:]
+				}
+			}
+		}
+	}
+	return os
+}
+
+// c18OriginsMatch is eng.OriginsMatch over c18Origins.
+func c18OriginsMatch(v ssa.Value, fr *nfFrame, allowed ...string) (bool, string, []string) {
+	var res []*regexp.Regexp
+	for _, a := range allowed {
+		res = append(res, regexp.MustCompile(a))
+	}
+	var all []string
+	okAll, bad := true, ""
+	for _, o := range c18Origins(v, fr) {
+		s := o.Kind + ":" + o.Desc
+		all = append(all, s)
+		ok := false
+		for _, re := range res {
+			if re.MatchString(s) {
+				ok = true
+				break
+			}
+		}
+		if !ok && okAll {
+			okAll, bad = false, s
+		}
+	}
+	if len(all) == 0 {
+		return false, "no origin", nil
+	}
+	return okAll, bad, all
+}
+
+// c18Prov is Ctx.Prov (same site, same key, same texts) over c18Origins.
+func c18Prov(c *eng.Ctx, fn *ssa.Function, site string, at ssa.Instruction, v ssa.Value, fr *nfFrame, allowed ...string) bool {
+	site = "prov{" + site + "}"
+	if v == nil {
+		c.Undecided(fn, site, token.NoPos, "value not found")
+		return false
+	}
+	pos := token.NoPos
+	if at != nil {
+		pos = at.Pos()
+	}
+	ok, bad, all := c18OriginsMatch(v, fr, allowed...)
+	if !ok {
+		c.Violation(fn, site, pos, fmt.Sprintf("value may originate from %s; allowed origins: %v; all origins: %v", bad, allowed, all), nil)
+		return false
+	}
+	c.OK(fn, site, pos, fmt.Sprintf("origins %v ⊆ allowed %v", all, allowed))
+	return true
 }
 
 // c18G is eng.G extended to a condition that is first kept in a boolean
@@ -627,8 +733,22 @@ func c18SiteInstrs(ss []c18Site) []ssa.Instruction {
 // reached without crossing an edge of the guard (dually for `||` and the false
 // edge). The description — and with it the obligation's key — stays eng.G's.
 func c18G(f *ssa.Function, pat string, want bool) eng.Guard {
-	g := eng.G(f, pat, want)
 	re := regexp.MustCompile(pat)
+	g := eng.Guard{Desc: fmt.Sprintf("[%s]=%v", pat, want)}
+	matches := func(nc eng.NormCond) bool {
+		return re.MatchString(c18Unbound(nc.Base)) || (nc.Alt != "" && re.MatchString(c18Unbound(nc.Alt)))
+	}
+	for _, b := range f.Blocks {
+		if ifi := eng.IfOf(b); ifi != nil {
+			if nc := eng.Normalize(ifi.Cond); matches(nc) {
+				e := eng.Edge{From: b, Succ: 1}
+				if nc.Pol == want {
+					e.Succ = 0
+				}
+				g.Edges = append(g.Edges, e)
+			}
+		}
+	}
 	have := map[eng.Edge]bool{}
 	for _, e := range g.Edges {
 		have[e] = true
@@ -665,7 +785,7 @@ func c18G(f *ssa.Function, pat string, want bool) eng.Guard {
 					}
 					some = true
 					vn := eng.Normalize(in)
-					if vn.Matches(re) && (vn.Pol == want) == phiVal {
+					if matches(vn) && (vn.Pol == want) == phiVal {
 						continue // the incoming value is the wanted condition itself
 					}
 					pred := phi.Block().Preds[i]
@@ -685,4 +805,151 @@ func c18G(f *ssa.Function, pat string, want bool) eng.Guard {
 		}
 	}
 	return g
+}
+
+// c18MapRead: v is m[key] for the constant key (possibly through the comma-ok
+// form, a type assertion or an interface conversion); returns m.
+func c18MapRead(v ssa.Value, key string) (ssa.Value, bool) {
+	for depth := 0; depth < 8 && v != nil; depth++ {
+		switch x := v.(type) {
+		case *ssa.Extract:
+			v = x.Tuple
+		case *ssa.TypeAssert:
+			v = x.X
+		case *ssa.ChangeInterface:
+			v = x.X
+		case *ssa.MakeInterface:
+			v = x.X
+		case *ssa.Lookup:
+			if k, ok := x.Index.(*ssa.Const); ok && eng.Expr(k) == key {
+				return x.X, true
+			}
+			return nil, false
+		default:
+			return nil, false
+		}
+	}
+	return nil, false
+}
+
+// c18ResultOfSites: every origin of v is result idx of one of the sites — of
+// the call itself, or of a closure / helper of which every normal return hands
+// on result idx of the target call it performs.
+func c18ResultOfSites(v ssa.Value, sites []c18Site, idx int) bool {
+	os := eng.Origins(v)
+	if len(os) == 0 {
+		return false
+	}
+	for _, o := range os {
+		var call *ssa.Call
+		switch x := o.Val.(type) {
+		case *ssa.Extract:
+			if cl, ok := x.Tuple.(*ssa.Call); ok && x.Index == idx {
+				call = cl
+			}
+		case *ssa.Call:
+			if idx == 0 {
+				call = x
+			}
+		}
+		if call == nil {
+			return false
+		}
+		ok := false
+		for _, s := range sites {
+			if s.At != ssa.Instruction(call) {
+				continue
+			}
+			if s.Self() {
+				ok = true
+				break
+			}
+			g := nfBody(call, call.Parent())
+			if g == nil {
+				break
+			}
+			hands := true
+			n := 0
+			for _, r := range eng.Returns(g) {
+				if r.Block().Comment == "recover" || idx >= len(r.Results) {
+					continue
+				}
+				n++
+				vals, _, escaped := eng.ReturnVals(r, idx)
+				if escaped || len(vals) == 0 {
+					hands = false
+				}
+				for _, rv := range vals {
+					is := false
+					for _, e := range s.Effs {
+						if e.Fn == g && rv != nil && rv == eng.ResultValue(e.Call.In, idx) {
+							is = true
+						}
+					}
+					if !is {
+						hands = false
+					}
+				}
+			}
+			ok = hands && n > 0
+			break
+		}
+		if !ok {
+			return false
+		}
+	}
+	return true
+}
+
+// c18FieldVal is a value stored into a field, with the call chain of the
+// function the store stands in.
+type c18FieldVal struct {
+	V  ssa.Value
+	Fr *nfFrame
+}
+
+// c18LitField: the values stored into field `name` of the struct v points to —
+// eng.StructLitField at every hop of c18Val, so that a store made through the
+// parameter of a forwarding closure / helper counts as well as the literal the
+// caller built.
+func c18LitField(v ssa.Value, fr *nfFrame, name string) []c18FieldVal {
+	var out []c18FieldVal
+	for depth := 0; depth < 6 && v != nil; depth++ {
+		for _, x := range eng.StructLitField(v, name) {
+			out = append(out, c18FieldVal{x, fr})
+		}
+		nv, nfr := c18Step(v, fr)
+		if nv == nil {
+			break
+		}
+		v, fr = nv, nfr
+	}
+	return out
+}
+
+// c18Step is one hop of c18Val (nil: no further hop).
+func c18Step(v ssa.Value, fr *nfFrame) (ssa.Value, *nfFrame) {
+	switch x := v.(type) {
+	case *ssa.Parameter:
+		if fr == nil {
+			return nil, nil
+		}
+		if a := nfArgFor(fr.call, x); a != nil {
+			return a, fr.up
+		}
+	case *ssa.UnOp:
+		if x.Op == token.MUL {
+			if _, isFA := x.X.(*ssa.FieldAddr); !isFA {
+				if cell := nfCellOf(x.X); cell != nil {
+					if vals := nfStoresTo(cell); len(vals) == 1 {
+						if fr != nil && fr.call != nil && nfValueFn(vals[0]) == fr.call.Parent() {
+							fr = fr.up
+						}
+						return vals[0], fr
+					}
+				}
+			}
+		}
+	}
+	return nil, nil
 }
